@@ -21,10 +21,15 @@
 package template
 
 import (
+	"bytes"
+	"go/ast"
 	"go/format"
+	"go/parser"
+	"go/token"
 	"regexp"
 
 	"github.com/gontainer/gontainer-helpers/v3/grouperror"
+	"golang.org/x/tools/go/ast/astutil"
 	"golang.org/x/tools/imports"
 )
 
@@ -59,7 +64,69 @@ func (CodeFormatter) Format(c string) (_ string, err error) {
 
 	// remove unused imports
 	// required for generating stubs
-	r, err = imports.Process("", r, nil)
+	r, err = removeUnusedImports(r)
+	if err != nil {
+		return "", err
+	}
+
+	// format only: the generated file declares all the imports it needs,
+	// resolving missing ones would make the output depend on the environment
+	// (the go command, GOPATH, the module cache, the working directory)
+	r, err = imports.Process("", r, &imports.Options{
+		FormatOnly: true,
+		Comments:   true,
+		TabIndent:  true,
+		TabWidth:   8,
+	})
 
 	return string(r), err
+}
+
+// removeUnusedImports removes named imports that are not referenced in the given source.
+func removeUnusedImports(src []byte) ([]byte, error) {
+	fset := token.NewFileSet()
+	f, err := parser.ParseFile(fset, "", src, parser.ParseComments)
+	if err != nil {
+		return nil, err
+	}
+
+	used := make(map[string]struct{})
+	ast.Inspect(f, func(n ast.Node) bool {
+		if sel, ok := n.(*ast.SelectorExpr); ok {
+			if id, ok := sel.X.(*ast.Ident); ok && id.Obj == nil {
+				used[id.Name] = struct{}{}
+			}
+		}
+		return true
+	})
+
+	type namedImport struct{ name, path string }
+	var unused []namedImport
+	for _, imp := range f.Imports {
+		if imp.Name == nil || imp.Name.Name == "_" || imp.Name.Name == "." {
+			continue
+		}
+		if _, ok := used[imp.Name.Name]; !ok {
+			unused = append(unused, namedImport{name: imp.Name.Name, path: importPath(imp)})
+		}
+	}
+	if len(unused) == 0 {
+		return src, nil
+	}
+	for _, u := range unused {
+		astutil.DeleteNamedImport(fset, f, u.name, u.path)
+	}
+
+	var buf bytes.Buffer
+	if err := format.Node(&buf, fset, f); err != nil {
+		return nil, err
+	}
+	return buf.Bytes(), nil
+}
+
+func importPath(s *ast.ImportSpec) string {
+	if len(s.Path.Value) < 2 {
+		return ""
+	}
+	return s.Path.Value[1 : len(s.Path.Value)-1]
 }
